@@ -1,6 +1,7 @@
 import PlzVerif.Lemmas.AspOps
 import PlzVerif.Lemmas.AspOpsPrefix
 import PlzVerif.Lemmas.AspReadOnly
+import PlzVerif.Lemmas.AspIntProgram
 import PlzVerif.Model.AspInterp
 import PlzVerif.Model.PyInterp
 import PlzVerif.Model.AspGenerated
@@ -560,5 +561,92 @@ theorem C16_program_arith (op : BinOp) (x y : Int) (hx : litOK x) (hy : litOK y)
 
 -- the hypotheses are met by the operands of the two old witnesses
 example : litOK (-7) ∧ litOK 3 ∧ litOK 9007199254740993 ∧ litOK 1 := by unfold litOK; decide
+
+/-! ### Program level: every integer program, any length, any nesting, any environment
+
+The statement that is wanted at program level is
+
+    ProgramAgreement : for every program `p` of the modelled common subset (the whole expression and statement
+    grammar of Model/AspSyntax.lean) that contains none of the known-finding constructs, `runProgram F opt fuel p`
+    and `Py.runProgram fuel p` are both `.ok` with the same globals or both `.error`.
+
+It is **not proved** in that generality.  What is proved by structural induction over programs (not a sample, no
+bound on size or depth) is the fragment of *integer programs* of `Lemmas/AspIntProgram.lean`:
+`(x = e)*` with `e ::= n | x | (e) | e op e`, `op ∈ {+ - * // %}`; names refer to earlier assignments, so every
+expression is evaluated in an arbitrary environment.  Wherever the mathematical meaning `denProg` is defined (all
+literals accepted by the parser, all names bound, all intermediate results within 64 bits, no zero divisor) both
+interpreters run the program and render exactly that meaning.
+
+Missing for the full statement: the error half on this fragment (unbound name, zero divisor: both fail — shown only
+for the operators, `C16_intop_zero`); chains of several operators at this level (the operator-layer theorems
+`C16_ops_partial_with_prefix` / `C16_chain_eval_partial` are not lifted through the statement layer); strings, lists,
+dicts, `if` / `for`, functions, comprehensions, builtins: a simulation between the slice heap of the asp model and the
+object heap of the Python reference is needed there, and it has to carve out exactly the aliasing findings. -/
+
+open PlzVerif.IntProg in
+/-- The integer operators of the asp model at today's facts do what `AspIntProgram` needs. -/
+theorem intOpsOK_F : IntProg.IntOpsOK F := by
+  intro op x y st hfit hz
+  have hr : inRange (pyArith op.bin x y) := by
+    have : pyArith op.bin x y = arith op x y := by cases op <;> rfl
+    rw [this]
+    simp only [fits64, Bool.and_eq_true, decide_eq_true_eq] at hfit
+    exact hfit
+  have hz' : (op.bin = .fdiv ∨ op.bin = .mod) → y ≠ 0 := by
+    intro h; apply hz; cases op <;> simp [AOp.bin] at h ⊢
+  have := (C16_intop_agrees op.bin x y st op.bin_cases hr hz').1
+  have e : pyArith op.bin x y = arith op x y := by cases op <;> rfl
+  rw [e] at this; exact this
+
+open PlzVerif.IntProg in
+/-- **C16 for every integer program** (partial form of the program-level statement): for every program `p` of the
+    fragment — any number of assignments, expressions of any nesting depth over earlier variables — with enough
+    fuel, if the mathematical meaning `denProg [] p` is defined then the asp model (package file, today's facts) and
+    the Python reference both run `p` and render exactly that meaning; in particular they do not disagree. -/
+theorem C16_program_int_partial (p : Prog) (fuel : Nat) (env' : Env) (hfuel : enough fuel p = true)
+    (hlen : p.length + 1 < 100000) (hd : denProg [] p = some env') :
+    runProgram F false fuel (toProgram p) = .ok (globalsOf env') ∧
+    Py.runProgram fuel (toProgram p) = .ok (globalsOf env') ∧
+    disagree false fuel (toProgram p) = false ∧ bothRun F false fuel (toProgram p) = true := by
+  have ha := asp_run F intOpsOK_F p fuel env' hfuel hlen hd
+  have hp := py_run p fuel env' hfuel hlen hd
+  refine ⟨ha, hp, ?_, ?_⟩
+  · simp only [disagree, disagreeF, ha, hp]
+    have := globals_beq_refl env'
+    simp [this]
+  · simp only [bothRun, ha, hp]
+
+open PlzVerif.IntProg in
+/-- `a = 7; b = (a * 3 - 20) // -4; c = b % 5 + a * (b - 1); a = c - a` -/
+def pInt : Prog :=
+  [("a", .lit 7),
+   ("b", .bin .fdiv (.par (.bin .sub (.bin .mul (.var "a") (.lit 3)) (.lit 20))) (.lit (-4))),
+   ("c", .bin .add (.bin .mod (.var "b") (.lit 5)) (.bin .mul (.var "a") (.par (.bin .sub (.var "b") (.lit 1))))),
+   ("a", .bin .sub (.var "c") (.var "a"))]
+
+-- the hypotheses are met (fuel 50 is enough, the meaning is defined): b = -1, c = 4 + 7 * -2 = -10, a = -17
+open PlzVerif.IntProg in
+example : enough 50 pInt = true ∧ denProg [] pInt = some [("a", -17), ("b", -1), ("c", -10)] := by decide +kernel
+
+/-- A program far outside the integer fragment — nested comprehensions, `sorted`, string concatenation, `upper`,
+    `join`, `len`:
+      names = ["b", "a", "c"]
+      grid = [[n + m for m in names] for n in sorted(names)]
+      up = [sorted([w.upper() for w in row]) for row in grid]
+      j = "-".join(up[0])
+      k = len(j) + len(grid) -/
+def wComplex : Program :=
+  [.assign "names" (.list 1 [.str "b", .str "a", .str "c"]),
+   .assign "grid" (.comp 2 (.comp 3 (.chain none (.name "n") [(.add, none, .name "m")]) ["m"] (.name "names") none)
+      ["n"] (.call "sorted" [(none, .name "names")]) none),
+   .assign "up" (.comp 4 (.call "sorted" [(none, .comp 5 (.method (.name "w") "upper" []) ["w"] (.name "row") none)])
+      ["row"] (.name "grid") none),
+   .assign "j" (.method (.str "-") "join" [(none, .index (.name "up") (.int 0))]),
+   .assign "k" (.chain none (.call "len" [(none, .name "j")]) [(.add, none, .call "len" [(none, .name "grid")])])]
+
+set_option maxRecDepth 100000 in
+/-- On it the two interpreters run and agree (one decided sample: the general statement is not proved there). -/
+theorem C16_sample_complex_program :
+    disagree false 200 wComplex = false ∧ bothRun F false 200 wComplex = true := by decide +kernel
 
 end PlzVerif.Props.C16
